@@ -29,6 +29,12 @@ CHECKS = {
   text="For 6 expiry encodings x {fact, rule} x {indexed, linear}: every sequence (depth 5 quick / 7 thorough; the reachable canonical state space is exhausted before the bound) over write, write-already-expired, advancing the virtual clock to 9 instants around the expiry (including E-1ns and E), reload from storage, GetFact/GetRule, SearchFacts, SearchRules and ProcessEvent; the expiry instant is read back, bounded against now+ttl and required never to move; visibility must flip exactly at E; observed-expired items must be gone from storage; already-expired writes must be refused without trace.",
   note="Trusts that every clock read goes through the rewritten `time` import (instr reports all swaps). Rules with an RFC3339 string expires are outside AddRule's input domain (Rule.Expires is numeric) and not explored.",
   design="2/C07"),
+ "C08": dict(
+  engine="GEN+SEQ",
+  technique="bounded-exhaustive enumeration of all dependency graphs x deletion sequences x owned map-iteration orders on the real states, reverse-reachability oracle, crash-attributing worker processes",
+  text="All 4096 deleteWith graphs over three nodes (targets: the nodes and a dangling id; self-loops, cycles, chains, fans) x 7 variants (plain facts, a rule node, a property fact, an id spelled ?q, an expiring node deleted by a read, an overwritten dependent with stale index entries, an id spelled \"id\") x 9 sequences of one or two deletions x {indexed, linear under every iteration order of its fact map}; after each deletion GetFact, SearchFacts and the storage pairs must show exactly the reverse-reachability survivors. Non-termination (stack overflow) kills a worker and is attributed to its journaled case.",
+  note="Deleting an id that is not live is unspecified and skipped. Quick tier subsamples non-default variants (every 4th graph) and linear map orders (2 of 6); thorough is complete.",
+  design="2/C08"),
  "C05": dict(
   engine="GEN",
   technique="bounded-exhaustive enumeration of (pattern, datum, bindings) triples x owned map-iteration orders on the real matcher against an independent reference matcher",
